@@ -209,3 +209,109 @@ func VerifC15_run_fault() {
 	}
 	vAssert(vTickerStops() == 1, "C19: the interrupter is stopped")
 }
+
+// C06 / C07: a run from New in which some inputs stay open and idle for a while: their writer delivers
+// (or not) and closes at some later moment, possibly after every other input was closed and drained.
+// The discipline must keep polling them: everything written is delivered and the discipline terminates.
+// gosym: mode=int
+func VerifC07_run_late_close() {
+	n := vParam("n", 2)
+	H := uint(vParam("H", 2))
+	e := &vEnv{n: n, faultAt: -1, H: H}
+	vE = e
+	all := make([]uint, 0, n)
+	for i := 0; i < n; i++ {
+		all = append(all, vNondetUint("p"))
+	}
+	vDistinct(all...)
+	for i := 1; i < n; i++ {
+		vAssume(all[i-1] > all[i])
+	}
+	e.ps = all
+	inputs := map[uint]<-chan int{}
+	late := make([]bool, n)   // buffered input whose writer acts later
+	closed := make([]bool, n) // the writer has closed the channel
+	supplied := 0
+	for i := 0; i < n; i++ {
+		capacity := 2
+		kind := vChoose("kind", 3) // 0: unbuffered, closed as soon as the discipline waits on it; 1: buffered, closed at once; 2: buffered, late writer
+		if kind == 0 {
+			capacity = 0
+		}
+		ch := make(chan int, capacity)
+		e.ins = append(e.ins, ch)
+		inputs[e.ps[i]] = ch
+		switch kind {
+		case 0:
+			if vChoose("item", 2) == 1 {
+				vPark(ch, vNondetInt("item"))
+				supplied++
+			}
+			ch := ch
+			vOnBlock(ch, func() {
+				if vIsClosed(ch) {
+					vDecline()
+					return
+				}
+				close(ch)
+			})
+			closed[i] = true // (will be, at the latest when the discipline waits on it)
+		case 1:
+			if vChoose("item", 2) == 1 {
+				ch <- vNondetInt("item")
+				supplied++
+			}
+			close(ch)
+			closed[i] = true
+		case 2:
+			late[i] = true
+		}
+	}
+	d, err := New(Opts[int]{Divider: divider.Fair, HandlersQuantity: H, Inputs: inputs})
+	if err != nil {
+		vExpect("NOREACH", "ok")
+		return
+	}
+	e.d = d
+	e.G = make([]uint, n)
+	vSink(d.output)
+	e.monitors()
+	vOnBlock(d.feedback, func() {
+		if vSumAssert("in flight", e.G...) == 0 {
+			vDecline()
+			return
+		}
+		i := vChoose("release", e.n)
+		vAssume(e.G[i] >= 1)
+		d.feedback <- e.ps[i]
+	})
+	// between rounds: a late writer may write its item and close now
+	vReplace("getLimitedFeedback", func(dd *Discipline[int]) {
+		for i := range late {
+			if late[i] && !closed[i] && vChoose("writer-acts-now", 2) == 1 {
+				if vChoose("item", 2) == 1 {
+					e.ins[i] <- vNondetInt("item")
+					supplied++
+				}
+				close(e.ins[i])
+				closed[i] = true
+			}
+		}
+		dd.getLimitedFeedback()
+	})
+	vTickBudget(8)
+	vFairTicks()
+	vSleepBudget(vParam("K", 3))
+	vExpect("HORIZON", "ok") // a late writer that has not acted yet: the discipline idles (correct)
+	vExpect("TICK-HORIZON", "ok")
+	vExpect("BLOCKED", "fail:C06/C07: the discipline blocks for ever while an input is still open (it must keep polling) or after everything was closed and released")
+	vTermWatch(d.output, d.err)
+	vRunSpawned(0)
+	vRunLeftoverSpawned()
+	vReach("terminated")
+	for i := range closed {
+		vAssert(closed[i], "C07: the discipline terminates only after every input has been closed")
+	}
+	vAssert(e.sends == supplied, "C02/C07: at termination everything written before the closes was delivered exactly once")
+	vAssert(vAnd(vIsClosed(d.output), vIsClosed(d.err), len(d.err) == 0), "C07: normal termination closes output and err without an error value")
+}
